@@ -894,12 +894,67 @@ def run(ctx):
     ctx.sample({"history": "set", "type": "ROUNDED_RECTANGLE", "index": 0,
                 "first_shape_value": (16667 + NONDEFAULT_DELTA) / 100000.0, "fresh_shape_must_read": [0.16667]})
 
+    # -- 5. PowerPoint-authored charts whose type the repository's acceptance spec documents ------------------
+    acc = acceptance_chart_types()
+    if len(acc) < 25:
+        raise HarnessError("only %d documented chart types parsed from features/" % len(acc))
+    for lab, ((si, hi), expected) in sorted(acc.items()):
+        ctx.count("evaluations")
+        ctx.count("authored_chart_cases")
+        _emit(ctx, case_acceptance_chart(lab, si, hi, expected), {"kind": "authored-chart", "label": lab, "slide": si, "shape": hi, "expected": expected})
+        ctx.add("nontrivial", ("authored-chart", expected))
+    ctx.extra["authored_chart_types"] = sorted(v[1] for v in acc.values())
+
     # -- closed form ------------------------------------------------------------------------------------
     n_conn = sum(1 for m in MSO_CONNECTOR_TYPE if m.xml_value)
-    expect = (2 * len(enums) + n_xml + n_exempt) + 2 * len(shapes) + n_conn + n_chart_cases + n_hist + len(shapes)
+    expect = (2 * len(enums) + n_xml + n_exempt) + 2 * len(shapes) + n_conn + n_chart_cases + n_hist + len(shapes) + len(acc)
     if ctx.counters["evaluations"] != expect:
         raise HarnessError("evaluations %d != closed form %d" % (ctx.counters["evaluations"], expect))
     ctx.extra["closed_form_size"] = expect
+
+
+# ---- 5. PowerPoint-authored charts of documented type (incl. the chart types the library cannot write) --------
+
+def acceptance_chart_types():
+    """(label -> expected XL_CHART_TYPE member name) from features/cht-chart.feature and (label -> (slide, shape))
+    from features/steps/chart.py: the repository's own acceptance specification of what each chart of the
+    PowerPoint-authored deck cht-chart-type.pptx is. Parsed as text; nothing is imported from features/."""
+    import os
+    import re
+    repo = os.environ.get("VERIF_REPO", "/repo")
+    feat = open(os.path.join(repo, "features", "cht-chart.feature")).read()
+    steps = open(os.path.join(repo, "features", "steps", "chart.py")).read()
+    exp = {}
+    m = re.search(r"Examples: chart types\n(.*?)\n\s*\n", feat, re.S)
+    if m:
+        for line in m.group(1).splitlines():
+            cells = [c.strip() for c in line.strip().strip("|").split("|")]
+            if len(cells) == 2 and cells[0] != "chart-type":
+                exp[cells[0]] = cells[1]
+    loc = {}
+    m = re.search(r"def given_a_chart_of_type_chart_type.*?\{(.*?)\}\[chart_type\]", steps, re.S)
+    if m:
+        for lab, a, b in re.findall(r'"([^"]+)":\s*\((\d+),\s*(\d+)\)', m.group(1)):
+            loc[lab] = (int(a), int(b))
+    return {lab: (loc[lab], exp[lab]) for lab in exp if lab in loc}
+
+
+def case_acceptance_chart(label, slide_idx, shape_idx, expected):
+    import os
+    from pptx import Presentation
+    repo = os.environ.get("VERIF_REPO", "/repo")
+    prs = Presentation(os.path.join(repo, "features", "steps", "test_files", "cht-chart-type.pptx"))
+    try:
+        got = prs.slides[slide_idx].shapes[shape_idx].chart.chart_type
+    except Exception as e:  # noqa: BLE001
+        return [("C20|authored-chart-readback-raised|%s|%s" % (expected, type(e).__name__),
+                 "cht-chart-type.pptx slide %d shape %d (%s): chart_type raised %r" % (slide_idx, shape_idx, label, e))]
+    name = getattr(got, "name", str(got))
+    if name != expected:
+        return [("C20|authored-chart-readback|XL_CHART_TYPE.%s|got=%s" % (expected, name),
+                 "cht-chart-type.pptx slide %d shape %d is documented as '%s' (%s) but reads chart_type %s" % (
+                     slide_idx, shape_idx, label, expected, name))]
+    return []
 
 
 # ---- replay ---------------------------------------------------------------------------------------------
@@ -920,6 +975,8 @@ def replay(data):
         fails = case_connector(data["member"])
     elif k == "chart":
         fails = case_chart(data["member"], data["nser"], data["npts"])[1]
+    elif k == "authored-chart":
+        fails = case_acceptance_chart(data["label"], data["slide"], data["shape"], data["expected"])
     elif k == "history":
         if data["first"] == "set":
             fails = case_history_set(data["member"], data["index"])
